@@ -34,7 +34,7 @@ func ModelledVariant(name, tag string) string {
 // subject-bearing modelled checkers whose warnings carry a recognition verdict (C20 tie)
 var modelledSubject = []string{"appendAssign", "appendCombine", "exitAfterDefer", "filepathJoin", "flagName", "newDeref", "nilValReturn", "rangeAppendAll", "sortSlice", "truncateCmp"}
 
-var witnessNS = map[string]bool{"ns_append_pkgfunc_same": true, "ns_new_pkgfunc_same": true, "ns_sort_local": true, "ns_filepath_alias": true, "ns_flag_pkgvar": true, "ns_cast_pkgfunc": true, "ns_nil_local": true}
+var witnessNS = map[string]bool{"ns_append_pkgfunc_same": true, "ns_new_pkgfunc_same": true, "ns_sort_local": true, "ns_filepath_alias": true, "ns_flag_pkgvar": true, "ns_cast_pkgfunc": true, "ns_nil_local": true, "ns_exit_local": true}
 
 const tieHeader = "From GC Require Import Base GoAst Model_Checkers Model_Checkers2.\nOpen Scope string_scope.\nOpen Scope N_scope.\n\n"
 
